@@ -14,10 +14,11 @@ PID = "C11"
 PART = "x26_iosetup"
 ENV = {"ASAN_OPTIONS": vlib.ASAN_ENV + ":symbolize=0"}
 CFG = {
-    "quick":    dict(mcs=["MC_IoSetup.cfg"], gens=["Gen_IoSetup.cfg", "Gen_IoSetup_c.cfg"], nhist=30, steps=40),
-    "thorough": dict(mcs=["MC_IoSetup.cfg", "MC_IoSetup_t.cfg"], gens=["Gen_IoSetup_t.cfg", "Gen_IoSetup_c.cfg"], nhist=300, steps=80),
+    "quick":    dict(mcs=["MC_IoSetup.cfg"], gens=["Gen_IoSetup.cfg", "Gen_IoSetup_c.cfg"], nhist=30, steps=40, sample=2500),
+    "thorough": dict(mcs=["MC_IoSetup.cfg", "MC_IoSetup_t.cfg"], gens=["Gen_IoSetup_t.cfg", "Gen_IoSetup_c.cfg"], nhist=300, steps=80, sample=0),
 }
-SCRATCH = os.path.join(vlib.ROOT, "_work", "X26")
+TOP = os.path.join(vlib.ROOT, "_work", "X26")
+SCRATCH = os.path.join(TOP, "run-%d" % os.getpid())     # per run: several C11 runs may share the machine
 
 
 def enabled():
@@ -48,7 +49,10 @@ def signature(step, why, beh=None, i=0):
 
 
 def run(exe, behs):
-    recs, _ = vlib.run_driver(exe, vlib.to_script(behs), env=ENV, timeout=900)
+    os.makedirs(SCRATCH, exist_ok=True)
+    env = dict(ENV)
+    env["X26_DIR"] = SCRATCH
+    recs, _ = vlib.run_driver(exe, vlib.to_script(behs), env=env, timeout=900)
     return recs
 
 
@@ -171,6 +175,10 @@ def run_part(ck, tier):
             if gen.error or gen.violation:
                 raise vlib.MachineryError("behaviour export failed (%s): %s %s" % (g, gen.error, gen.violation))
             behs += vlib.parse_behaviours(gen.out)
+        notes["behaviours_generated"] = len(behs)
+        if cfg["sample"] and len(behs) > cfg["sample"]:
+            # quick tier: a seeded sample of the generated behaviours (all of them in the thorough tier)
+            behs = ck.rng.sample(behs, cfg["sample"])
         recs = run(exe, behs)
         mms = vlib.compare(behs, recs, match)
         per_sig = {}
@@ -186,7 +194,7 @@ def run_part(ck, tier):
             if nontrivial(by.get(b, [])):
                 nt.add(key_of(beh))
         ck.cov["evaluations"] += len(behs)
-        notes["behaviours_generated"] = len(behs)
+        notes["behaviours_replayed"] = len(behs)
         notes["replay_mismatches"] = len(mms)
         notes["replay_mismatch_kinds"] = per_sig
         if behs:
@@ -214,6 +222,10 @@ def run_part(ck, tier):
                            "inode, logs the library's close() calls through its own close(), counts open descriptors)"]
     finally:
         shutil.rmtree(SCRATCH, ignore_errors=True)
+        try:
+            os.rmdir(TOP)
+        except OSError:
+            pass
 
 
 def replay(det, path="-"):
@@ -228,6 +240,10 @@ def replay(det, path="-"):
         ok, matched, _ = vlib.validate_trace("Trace_IoSetup", events, tag="Trace_IoSetup_replay")
     finally:
         shutil.rmtree(SCRATCH, ignore_errors=True)
+        try:
+            os.rmdir(TOP)
+        except OSError:
+            pass
     if not ok:
         print("VIOLATION property=%s replay=%s  (trace rejected at event %d: %s)" % (
             PID, path, matched, json.dumps(events[matched])[:600] if matched < len(events) else "-"))
